@@ -170,8 +170,9 @@ def main(argv):
             known[k[0]][1] += 1
     for key, (text, n, first) in known.items():
         c = cases[first]
-        rep.known_finding('%s [%s; %d runs; e.g. alu=%s words=%s]' % (text, '/'.join(str(x) for x in key), n, c['alu'],
-                                                                     ' '.join('%08x' % w for w in c['words'])))
+        kstr = '/'.join(str(x) for x in key)
+        rep.known_finding('%s [%s; %d runs; e.g. alu=%s words=%s]' % (text, kstr, n, c['alu'], ' '.join('%08x' % w for w in c['words'])),
+                          key=kstr, replay_obj={'property': PROP, 'what': text, 'case': c})
     rep.obligation('monitor: every run equals ExecSpec or belongs to a listed finding (%d runs deviate, all listed)' % len(spec_bad), not viol)
 
     hist = collections.Counter((c['alu'], c['fmt']) for c in cases)
